@@ -1,10 +1,158 @@
-//! C05 — not built yet.
-use crate::{sx::Sx, Emitter};
+//! C05 — content hash / reference hash.  case = ( op version object )
+//!   op 0: content_hash -> digest bytes     op 1: reference_hash(rules of version) -> string
+//!   op 2: hashes.sha256 written by hash_and_sign_event -> string
+use ruma_common::{CanonicalJsonObject, CanonicalJsonValue, RoomVersionId};
+use ruma_signatures::{content_hash, hash_and_sign_event, reference_hash, Ed25519KeyPair, Error};
 
-pub fn run(_tier: &str, _seed: u64, _em: &mut Emitter) {}
+use crate::{
+    c04::gen_event,
+    jgen::gen_json,
+    rng::Rng,
+    sx::{guarded, obj_to_sx, Sx},
+    Emitter,
+};
 
-pub fn replay(_case: &Sx) -> Option<Sx> {
-    None
+fn err_code(e: &Error) -> i128 {
+    match e {
+        Error::PduSize => 1,
+        _ => 2,
+    }
+}
+
+fn keypair() -> Ed25519KeyPair {
+    let doc = Ed25519KeyPair::generate().unwrap();
+    Ed25519KeyPair::from_der(&doc, "1".into()).unwrap()
+}
+
+pub fn run_case(op: u32, version: u32, obj: &CanonicalJsonObject) -> Sx {
+    let rules = RoomVersionId::try_from(version.to_string().as_str()).unwrap().rules().unwrap();
+    let obj = obj.clone();
+    guarded(move || match op {
+        0 => match content_hash(&obj) {
+            Ok(h) => Sx::ok(Sx::S(h.as_bytes().to_vec())),
+            Err(e) => Sx::err(err_code(&e)),
+        },
+        1 => match reference_hash(&obj, &rules) {
+            Ok(s) => Sx::ok(Sx::s(&s)),
+            Err(e) => Sx::err(err_code(&e)),
+        },
+        _ => {
+            let mut o = obj;
+            // hash_and_sign_event computes the content hash first; later errors (hashes not an
+            // object, redaction) are outside this case's scope: report only what was stored.
+            match content_hash(&o) {
+                Err(e) => Sx::err(err_code(&e)),
+                Ok(_) => match hash_and_sign_event("domain", &keypair(), &mut o, &rules.redaction) {
+                    Ok(()) => match o.get("hashes").and_then(|h| h.as_object()).and_then(|h| h.get("sha256")) {
+                        Some(CanonicalJsonValue::String(s)) => Sx::ok(Sx::s(s)),
+                        _ => Sx::L(vec![Sx::N(3)]),
+                    },
+                    Err(_) => Sx::L(vec![Sx::N(4)]),
+                },
+            }
+        }
+    })
+}
+
+fn case_sx(op: u32, version: u32, obj: &CanonicalJsonObject) -> Sx {
+    Sx::L(vec![Sx::n(op), Sx::n(version), obj_to_sx(obj)])
+}
+
+pub fn replay(case: &Sx) -> Option<Sx> {
+    let l = case.as_list()?;
+    let obj = crate::sx::sx_to_obj(l.get(2)?)?;
+    Some(run_case(l.first()?.as_int()? as u32, l.get(1)?.as_int()? as u32, &obj))
 }
 
 pub fn dump(_dir: &str) {}
+
+fn emit(em: &mut Emitter, tag: &str, op: u32, v: u32, obj: &CanonicalJsonObject) {
+    let out = run_case(op, v, obj);
+    // op 2 outcomes 3/4 mean "hash_and_sign_event failed after hashing": not a C05 case
+    if op == 2 {
+        if let Sx::L(l) = &out {
+            if matches!(l.first(), Some(Sx::N(3)) | Some(Sx::N(4))) {
+                return;
+            }
+        }
+    }
+    em.emit(tag, case_sx(op, v, obj), out);
+}
+
+/// An event whose content-hash preimage has exactly `target` bytes.
+fn sized_event(target: usize, with_extras: bool) -> CanonicalJsonObject {
+    let mut ev = CanonicalJsonObject::new();
+    ev.insert("type".into(), CanonicalJsonValue::String("m.room.message".into()));
+    ev.insert("sender".into(), CanonicalJsonValue::String("@a:b.c".into()));
+    ev.insert("pad".into(), CanonicalJsonValue::String(String::new()));
+    let base = serde_json::to_string(&ev).unwrap().len();
+    ev.insert("pad".into(), CanonicalJsonValue::String("x".repeat(target - base)));
+    if with_extras {
+        let mut u = CanonicalJsonObject::new();
+        u.insert("age".into(), CanonicalJsonValue::Integer(1.into()));
+        ev.insert("unsigned".into(), CanonicalJsonValue::Object(u));
+        ev.insert("signatures".into(), CanonicalJsonValue::Object(CanonicalJsonObject::new()));
+    }
+    ev
+}
+
+pub fn run(tier: &str, seed: u64, em: &mut Emitter) {
+    let mut r = Rng::new(seed ^ 0xC05);
+    let n = if tier == "thorough" { 20_000 } else { 800 };
+    // boundary sizes (content hash preimage; for m.room.message the reference-hash preimage is
+    // the redacted event, far smaller, so the reference hash must succeed)
+    let sizes: &[usize] = if tier == "thorough" { &[65533, 65534, 65535, 65536, 65537, 70000] } else { &[65535, 65536] };
+    for &sz in sizes {
+        for extras in [false, true] {
+            let ev = sized_event(sz, extras);
+            emit(em, "boundary-size", 0, 4, &ev);
+            emit(em, "boundary-size", 1, 4, &ev);
+        }
+    }
+    // reference-hash size limit: a kept top-level key of boundary size
+    for &sz in sizes {
+        let mut ev = sized_event(200, false);
+        let base = {
+            let mut e2 = ev.clone();
+            e2.remove("pad");
+            e2.insert("room_id".into(), CanonicalJsonValue::String(String::new()));
+            // redacted form keeps type, sender, room_id
+            serde_json::to_string(&e2).unwrap().len()
+        };
+        ev.insert("room_id".into(), CanonicalJsonValue::String("r".repeat(sz - base)));
+        emit(em, "boundary-size-ref", 1, 9, &ev);
+    }
+    for _ in 0..n {
+        let mut ev = gen_event(&mut r);
+        if r.chance(1, 2) {
+            ev.insert("hashes".into(), gen_json(&mut r, 2));
+        }
+        if r.chance(1, 2) {
+            ev.insert("signatures".into(), gen_json(&mut r, 2));
+        }
+        let v = 1 + r.below(11) as u32;
+        emit(em, "random", 0, v, &ev);
+        emit(em, "random", 1, v, &ev);
+        if r.chance(1, 4) {
+            emit(em, "random-stored", 2, v, &ev);
+        }
+        // single-field mutations inside / outside the covered portion: the outcome of the
+        // mutated event is compared with the model like any other case
+        let keys: Vec<String> = ev.keys().cloned().collect();
+        if !keys.is_empty() {
+            let k = r.pick(&keys).clone();
+            let mut m = ev.clone();
+            m.insert(k, gen_json(&mut r, 1));
+            emit(em, "mutant", 0, v, &m);
+            emit(em, "mutant", 1, v, &m);
+        }
+        for k in ["unsigned", "signatures", "hashes"] {
+            if r.chance(1, 3) {
+                let mut m = ev.clone();
+                m.insert(k.into(), gen_json(&mut r, 2));
+                emit(em, "mutant-uncovered", 0, v, &m);
+                emit(em, "mutant-uncovered", 1, v, &m);
+            }
+        }
+    }
+}
